@@ -1,5 +1,6 @@
 import TRV.Oracle.Util
 import TRV.Model.Drivers
+import TRV.Model.Handshake
 import TRV.Spec.Genuine
 import TRV.Spec.Probe
 /-! Oracle operations for the four driver models: one line = configuration + a sequence of
@@ -104,7 +105,28 @@ def sack : Handler
       (fun s x => { s with sent := s.sent ++ [x] }) { cfg, sent := [] } ops))
   | _ => badOp
 
+def showHs : HsOut → String
+  | .skip => "skip"
+  | .fatal => "fatal"
+  | .truncTS => "truncts"
+  | .notSupported => "nosup"
+  | .timeout => "timeout"
+  | .done isn iack none => s!"done:{isn}:{iack}:-"
+  | .done isn iack (some (v, e)) => s!"done:{isn}:{iack}:{v}:{e}"
+
+/-- `drv.hs <local> <lport> <target> <tport> <packet hex>…` : `ReadHandshake` over the packets captured
+    before the deadline; the answer is the outcome of the read loop followed by the per-packet verdicts -/
+def hs : Handler
+  | l :: lp :: t :: tp :: pkts => orBad do
+    let localA ← parseHex l
+    let target ← parseHex t
+    let lport ← lp.toNat?
+    let tport ← tp.toNat?
+    let pkts ← pkts.mapM parseHex
+    pure (" ".intercalate (showHs (hsRead localA target lport tport pkts) :: pkts.map (fun p => showHs (hsRecv localA target lport tport p))))
+  | _ => badOp
+
 def handlers : List (String × Handler) :=
-  [("drv.icmp", icmp), ("drv.udp", udp), ("drv.tcp", tcp), ("drv.sack", sack)]
+  [("drv.icmp", icmp), ("drv.udp", udp), ("drv.tcp", tcp), ("drv.sack", sack), ("drv.hs", hs)]
 
 end TRV.Oracle.Drivers
